@@ -7,6 +7,8 @@ document order, nothing below forbidden nodes, own status = indicator x outcome,
 per the documented table, FILLED/EMPTY suffix by the entered input.
 """
 
+from contextvars import ContextVar
+
 from hypothesis import strategies as st
 
 from vlib import ref, sut, vtree
@@ -15,7 +17,7 @@ from vlib.core import Stage, fail
 ID = "C13"
 MANIFEST = {
     "category": "exploration",
-    "text": "Generated-input search against a reference model: deep AHBs (1-3 root groups, nesting depth <= 2/3, up to 40/120 nodes, segments with free-text and value-pool data elements, every node carrying a valid AHB expression of a documented form over a small key pool incl. several modal marks, packages, hints, format constraints) x content evaluation results incl. UNKNOWN x both soll flags. validate_deep_anwendungshandbuch (and validate_segment_level on drawn sub-trees, and validate_segment_group / validate_segment below an explicitly given required / optional / forbidden parent status) must return exactly the model's sequence of discriminators - each node once, in document order, nothing below a forbidden node - with the model's status for every group, segment and free-text element (incl. FILLED/EMPTY), or raise NotImplementedError exactly when the model meets an undetermined MUSS/prefix node.",
+    "text": "Generated-input search against a reference model: deep AHBs (1-3 root groups, nesting depth <= 2/3, up to 40/120 nodes, segments with free-text and value-pool data elements, every node carrying a valid AHB expression of a documented form over a small key pool incl. several modal marks, packages, hints, format constraints) x content evaluation results incl. UNKNOWN x both soll flags. validate_deep_anwendungshandbuch (and validate_segment_level on drawn sub-trees, and validate_segment_group / validate_segment below an explicitly given required / optional / forbidden parent status; a third of the cases additionally validate twice, with different data, on one long-lived set of the shipped ContentEvaluationResult based evaluators) must return exactly the model's sequence of discriminators - each node once, in document order, nothing below a forbidden node - with the model's status for every group, segment and free-text element (incl. FILLED/EMPTY), or raise NotImplementedError exactly when the model meets an undetermined MUSS/prefix node.",
     "note": "Trusted: the reference model in vlib/vtree.py (own status, parent table, traversal) and the reference evaluator. The status of value-pool elements is left to C17; here they only have to appear once at their place. Discriminators are unique paths.",
     "technique": "property-based testing against a pure reference model of the validation recursion (model-based oracle)",
 }
@@ -30,6 +32,9 @@ ASSUMPTIONS = [
     "value-pool statuses are judged by C17, not here",
 ]
 BOUNDS = {"quick": {"max_nodes": 40, "max_depth": 2}, "thorough": {"max_nodes": 120, "max_depth": 3}}
+
+
+_CER = ContextVar("c13_cer", default=None)
 
 
 def _api():
@@ -108,6 +113,19 @@ def check(case):
         res = sut.call(func, built, getattr(RequirementValidationValue, parent), soll)
         compare(sub_expected, res, tree, f"{func.__name__}({node['d']}, parent={parent}, soll_is_required={soll})")
         info["parent"] = parent
+    # one long-lived set of the shipped ContentEvaluationResult based evaluators, two validations with different data
+    if case.get("cer2") is not None:
+        sut.setup_cer_based(_CER)
+        for round_number, data in enumerate((cer, case["cer2"])):
+            _CER.set(sut.make_cer(rc=data["rc"], fc=data["fc"], hints=data["hints"], packages=tree["table"]))
+            try:
+                round_expected = vtree.model(tree, data["rc"], soll)
+            except vtree.ModelNotImplemented:
+                round_expected = "NIE"
+            res = sut.call(deep, vtree.build(tree), soll)
+            compare(round_expected, res, tree, f"validation {round_number + 1} of 2 on one long-lived evaluator set "
+                    f"(rc={data['rc']}, soll_is_required={soll})")  # fmt: skip
+        info["long_lived"] = True
     if expected != "NIE":
         _annotate(tree, cer, soll, dict(expected), info)
     return info
@@ -143,6 +161,8 @@ def _annotate(tree, cer, soll, statuses, info):
 
 def classify(case, info):
     labels = ["soll=" + str(case["soll"]), "explicit-parent=" + str(info.get("parent"))]
+    if info.get("long_lived"):
+        labels.append("long-lived-evaluators")
     if info["nie"]:
         labels.append("expects-NotImplementedError")
     else:
@@ -162,7 +182,8 @@ def strategy(tier):
     def build(draw):
         tree = draw(vtree.g_tree(max_nodes=bounds["max_nodes"], max_depth=bounds["max_depth"]))
         return {"tree": tree, "cer": draw(vtree.g_cer()), "soll": draw(st.booleans()), "sub": draw(st.integers(0, 200)),
-                "parent": draw(st.sampled_from([None, "IS_REQUIRED", "IS_OPTIONAL", "IS_OPTIONAL", "IS_FORBIDDEN"]))}
+                "parent": draw(st.sampled_from([None, "IS_REQUIRED", "IS_OPTIONAL", "IS_OPTIONAL", "IS_FORBIDDEN"])),
+                "cer2": draw(vtree.g_cer()) if draw(st.sampled_from(range(3))) == 0 else None}
 
     return build()
 
